@@ -53,7 +53,10 @@ RULE = ("segmetrics: 1-3 chromosomes, sorted bin tables (abutting / gapped / ove
         "the own columns only (not column order, not further columns). `cnvkit.py segmetrics` decisions: alpha 0, -0.25, 1.5 "
         "refused, no statistic flag -> nothing written (an unchanged table would be accepted too), otherwise the output "
         "file is -o or <sample id>.segmetrics.cns (sample ids S, tumor1, a.b). "
-        "not generated: bintest without segments (no segment mean to speak of), an empty segment table given to bintest "
+        "bintest without segments (op bintest_noseg, Model/StatsExt5.lean; harness/props/_c17ext5.py): residual = log2 - median "
+        "log2 of the bin's chromosome, 1-3 chromosomes plus single-bin chromosomes, off-target bins, weight 1, alpha grid and "
+        "alpha 1.5, API call styles / representations and `cnvkit.py bintest <cnr> [-a] [-t] [-o]` without -s. "
+        "not generated: an empty segment table given to bintest "
         "(proposed_fixes/C17-bintest-empty-segments.md), segment tables lacking probes/weight columns. "
         "non-trivial = some segment has >= 2 bins and a statistic is requested / some bin is tested / length >= 2; "
         "distinct by hash of the case")
@@ -74,6 +77,9 @@ TRUSTED_EXTRA = [
     "numpy RandomState(seed).randint / randn: the bootstrap index draws and smoothing noise are regenerated by the harness "
     "from the seed literal found in confidence_interval_bootstrap and handed to the model; Lean checks their shape (B x k)",
     "gaussian_kde ('mode' statistic) is not modelled and never requested",
+    "harness/vectrans_bh.py (on top of harness/vectrans.py) + lean/CnvVerif/Model/NpVecBh.lean: the typed reading of the "
+    "numpy vector code of bintest.p_adjust_bh (Generated/ExprsBh.lean; rules listed at the top of vectrans_bh.py); the "
+    "permutation of the third-party argsort is a parameter of the generated definition",
 ]
 
 PY_ONLY = ("repr", "call", "inter_rev", "how", "cli_noout")  # how the real code is called: nothing the model sees
@@ -517,6 +523,9 @@ def run_impl(case):
         return _run_glue(i)
     if op == "cmd":
         return _run_cmd(i)
+    if op == "bintest_noseg":   # round 5: do_bintest without segments (harness/props/_c17ext5.py)
+        from ._c17ext5 import run_noseg
+        return run_noseg(i)
     cn = _mk_bins(i)
     sg = _mk_segs(i)
     cn0, sg0 = cn.data.copy(), sg.data.copy()
@@ -748,7 +757,11 @@ def to_line(case, impl):
     if err:
         # the model still needs its parameters
         try:
-            params = _params_segmetrics(i) if case["op"] == "segmetrics" else _params_bintest(i)
+            if case["op"] == "bintest_noseg":
+                from ._c17ext5 import params_noseg
+                params = params_noseg(i)
+            else:
+                params = _params_segmetrics(i) if case["op"] == "segmetrics" else _params_bintest(i)
         except Exception:
             params = {"boots": [], "tt": [], "phi": []}
     else:
@@ -811,7 +824,9 @@ def judge(case, impl, resp):
                     dis.append(f"q[{k}] model {m} impl {a}")
                     break
         return spec, dis, None
-    if op == "bintest":
+    if op in ("bintest", "bintest_noseg"):
+        if impl.get("refused"):
+            return [], [], "alpha >= 1 refused by the code (outside the property's quantifier)"
         spec = list(resp.get("spec") or [])
         dis = []
         if not impl.get("input_unmutated", True):
@@ -878,7 +893,7 @@ def nontrivial(case, impl, resp):
         return True
     if op == "bh":
         return len(case["in"]["p"]) >= 2
-    if op == "bintest":
+    if op in ("bintest", "bintest_noseg"):
         return isinstance(resp, dict) and resp.get("tested", 0) >= 2
     if not isinstance(resp, dict) or "out" not in resp:
         return False
@@ -1373,6 +1388,9 @@ def gen_cases(rng, tier):
     n_glue, n_cmd = {"quick": (70, 24), "thorough": (500, 64), "search": (60, 0)}[tier]
     cases += [_glue_case(grng) for _ in range(n_glue)]
     cases += [_cmd_case(grng, k) for k in range(n_cmd)]
+    # round 5: bintest without segments (own generator, seeded last)
+    from ._c17ext5 import gen_noseg
+    cases += gen_noseg(grng, tier)
     return cases
 
 
